@@ -28,7 +28,7 @@ ASSUMPTIONS = ["numpy linear algebra", "reference gate table and Pauli applicati
                "operators acting beyond the circuit width must be refused with the ValueError of the backend's own width check"]
 SHARDS = {"quick": 4, "thorough": 16}
 
-CTYPES = ["float", "complex", "int", "np.float64", "np.complex128", "mixed", "float"]
+CTYPES = ["float", "complex", "int", "np.float64", "np.complex128", "np.complex64", "mixed", "mixed64", "float"]
 
 
 def selftest():
@@ -49,8 +49,12 @@ def coef_of(ctype, i, re, im):
         return complex(re, im)
     if ctype == "np.complex128":
         return np.complex128(complex(re, im))
+    if ctype == "np.complex64":
+        return np.complex64(complex(re, im))        # single-precision complex (e.g. read from a complex64 matrix); not a subclass of complex
     if ctype == "mixed":
         return float(re) if i % 2 == 0 else complex(re, im)
+    if ctype == "mixed64":
+        return float(re) if i % 2 == 1 else np.complex64(complex(re, im))
     raise KeyError(ctype)
 
 
@@ -72,11 +76,17 @@ def ref_terms(coefs):
 
 
 def is_complex_op(coefs):
-    return any(isinstance(c, complex) for c in coefs.values())
+    return any(np.iscomplexobj(c) for c in coefs.values())
 
 
-def tol_of(terms):
-    return 1e-8 * max(1.0, sum(abs(c) for c in terms.values()))
+def single_precision(coefs):
+    return any(isinstance(c, (np.complex64, np.float32)) for c in coefs.values())
+
+
+def tol_of(terms, coefs=None):
+    """1e-8 on unit scale; single-precision coefficients legitimately make Tangelo's arithmetic single precision (eps 6e-8)."""
+    base = 2e-6 if (coefs is not None and single_precision(coefs)) else 1e-8
+    return base * max(1.0, sum(abs(c) for c in terms.values()))
 
 
 def op_labels(op, coefs, n):
@@ -99,7 +109,7 @@ def op_labels(op, coefs, n):
             out.add("mixed-letters-word")
         if c == 0:
             out.add("zero-coefficient")
-        if isinstance(c, complex) and c.imag != 0:
+        if np.iscomplexobj(c) and complex(c).imag != 0:
             out.add("complex-coefficient")
     return out
 
@@ -221,7 +231,7 @@ def exact(ctx):
         psi = R.run(case["gates"], n, init)
         e = H.term_expectations(terms, psi, n)
         want = H.expectation(terms, e)
-        tol = tol_of(terms)
+        tol = tol_of(terms, coefs)
         iv = lambda: None if init is None else init.copy()
 
         # (a) cirq, n_shots=None: native expectation through operator translation (frequency route if the circuit is empty)
@@ -264,7 +274,7 @@ def postselect(ctx):
         terms = ref_terms(coefs)
         e = H.term_expectations(terms, psi, n)
         want = H.expectation(terms, e)
-        tol = tol_of(terms)
+        tol = tol_of(terms, coefs)
         iv = lambda: None if init is None else init.copy()
 
         be = get_backend("cirq")
@@ -300,6 +310,9 @@ def postselect(ctx):
 # ------------------------------------------------------------------------------------------------ sympy
 
 SYMPY_NAMES = [g for g in S.ALL_GATES if g not in S.SYMPY_UNSUPPORTED]
+# get_variance on the sympy backend (exact mode) needs the backend to take back its own symbolic statevector
+# (proposed fix C02-sympy-variance-symbolic-statevector.diff). Set to False to leave that clause out.
+SYMPY_VARIANCE = True
 
 
 @part("sympy", quick=28, thorough=800)
@@ -323,10 +336,21 @@ def sympy_part(ctx):
             v = init if be.backend_info()["statevector_order"] == "lsq_first" else R.reverse_order(init)
             iv = np.asarray(v).reshape(-1, 1)
         got = be.get_expectation_value(build_op(coefs), circ, initial_statevector=iv)
-        near(got, want, 1e-6 * max(1.0, sum(abs(c) for c in terms.values())), "sympy:expectation", "sympy get_expectation_value")
+        near(got, want, max(1e-6, 100 * tol_of(terms, coefs)), "sympy:expectation", "sympy get_expectation_value")
+        if case.get("var"):
+            iv2 = None if iv is None else iv.copy()
+            vg = be.get_variance(build_op(coefs), S.build_circuit(case), initial_statevector=iv2)
+            near(vg, H.variance_formula(terms, e), max(1e-6, 100 * tol_of(terms, coefs)) * max(1.0, max(abs(c) for c in terms.values())),
+                 "sympy:variance", "sympy get_variance")
         return nontrivial(coefs, psi), op_labels(case["op"], coefs, n) | circ_labels(case, n)
 
-    ctx.search("sympy", pure_cases(3, mg, names=SYMPY_NAMES, max_terms=3, max_controls=2, angle=ang), body, shrink_calls=60)
+    @st.composite
+    def cases(draw):
+        c = draw(pure_cases(3, mg, names=SYMPY_NAMES, max_terms=3, max_controls=2, angle=ang))
+        c["var"] = SYMPY_VARIANCE and draw(st.sampled_from([True, False, True]))
+        return c
+
+    ctx.search("sympy", cases(), body, shrink_calls=60)
 
 
 # ------------------------------------------------------------------------------------------------ finite shots
@@ -377,7 +401,7 @@ def sampled_search(ctx, name, flavours):
                 raise Skip("post-selected sample could be empty")
         want = H.expectation(terms, e)
         iv = lambda: None if init is None else init.copy()
-        rnd = 1e-9 * max(1.0, sum(abs(c) for c in terms.values()))
+        rnd = 0.1 * tol_of(terms, coefs)
         what = f"n_shots={N}, {case['flavour']}"
 
         be = get_backend("cirq", n_shots=N)
@@ -394,12 +418,12 @@ def sampled_search(ctx, name, flavours):
             # single Pauli word: the estimate is c*(1-2j/N) (+ constant) for an integer number j of -1 outcomes
             c1 = terms[words[0]].real
             j = (1 - (got.real - terms.get((), 0).real) / c1) * N / 2
-            if abs(j - round(j)) > 1e-6 * N or not (-1e-6 <= j <= N + 1e-6):
+            if abs(j - round(j)) > (1e-4 if single_precision(coefs) else 1e-6) * N or not (-1e-6 <= j <= N + 1e-6):
                 raise Fail(f"{what}: one-word estimate {got.real} is not c*(1-2j/N) for an integer j (j={j})", sig="sampled:granularity")
 
         w2 = {t: abs(c) ** 2 for t, c in terms.items()}
         lo, hi = H.variance_interval(w2, e, Neff, len(terms))
-        slack = 1e-9 * max(1.0, sum(w2.values()))
+        slack = (2e-6 if single_precision(coefs) else 1e-9) * max(1.0, sum(w2.values()))
         ctx.np_seed({"v": case})
         var = be.get_variance(build_op(coefs), S.build_circuit(case), initial_statevector=iv(), **kw)
         var = to_complex(var)
@@ -429,6 +453,97 @@ def sampled(ctx):
 @part("sampled_postselect", quick=12, thorough=400)
 def sampled_postselect(ctx):
     sampled_search(ctx, "sampled_postselect", ["postselect"])
+
+
+# ------------------------------------------------------------------------------------------------ histories on one backend / one operator
+
+@part("history", quick=160, thorough=4800)
+def history(ctx):
+    """ONE backend object of each kind and ONE QubitOperator object: evaluate, modify the operator in place (set / delete / add a
+    term, rescale) and possibly switch the circuit or the initial state, evaluate again. Every evaluation must equal the reference
+    value of the operator and state as they are at that moment (no state may leak between calls)."""
+    from tangelo.linq import get_backend
+    from tangelo.toolboxes.operators import QubitOperator
+    mw, mg = (4, 8) if ctx.tier == "quick" else (5, 14)
+
+    @st.composite
+    def cases(draw):
+        c = draw(pure_cases(mw, mg, max_terms=5))
+        n = S.circuit_width(c)
+        c["op"]["ctype"] = draw(st.sampled_from(["float", "float", "np.float64", "int", "complex", "float"]))
+        c["alt_gates"] = draw(st.lists(S.gate_recs(n), min_size=1, max_size=6))
+        fl = st.floats(-3, 3, allow_nan=False)
+        steps = []
+        for _ in range(draw(st.integers(1, 3))):
+            mods = []
+            for _ in range(draw(st.integers(1, 3))):
+                kind = draw(st.sampled_from(["set", "iadd", "scale", "del", "isub"]))
+                if kind in ("set", "iadd", "isub"):
+                    mods.append([kind, draw(S.pauli_terms(n, min_weight=1)), draw(st.one_of(fl, st.sampled_from([1.0, -2.0, 0.5])))])
+                elif kind == "scale":
+                    mods.append([kind, draw(st.sampled_from([2.0, -1.0, 0.5, 3.0, -0.25]))])
+                else:
+                    mods.append([kind, draw(st.integers(0, 7))])
+            steps.append({"mods": mods, "alt": draw(st.sampled_from([False, False, True])), "what": draw(st.sampled_from(["exp", "exp", "var"]))})
+        c["steps"] = steps
+        return c
+
+    def body(case):
+        n = S.circuit_width(case)
+        init = S.build_statevector(case["init"], n)
+        model = op_coefs(case["op"])                       # my own record of the operator: {term: coefficient}
+        op = build_op(model)                               # the ONE operator object handed to Tangelo at every step
+        be, gb = get_backend("cirq"), H.make_generic_backend()
+        psis = {False: R.run(case["gates"], n, init), True: R.run(case["alt_gates"], n, init)}
+        labs, changed = set(), False
+        last = None
+        for k, step in enumerate([{"mods": [], "alt": False, "what": "exp"}] + case["steps"]):
+            for m in step["mods"]:
+                if m[0] == "set":
+                    t = tuple((int(q), p) for q, p in m[1])
+                    op.terms[t] = model[t] = float(m[2])
+                elif m[0] in ("iadd", "isub"):
+                    t = tuple((int(q), p) for q, p in m[1])
+                    if m[0] == "iadd":
+                        op += QubitOperator(t, float(m[2]))
+                    else:
+                        op -= QubitOperator(t, float(m[2]))
+                    model[t] = model.get(t, 0.0) + (float(m[2]) if m[0] == "iadd" else -float(m[2]))
+                elif m[0] == "scale":
+                    op *= m[1]
+                    model = {t: c * m[1] for t, c in model.items()}
+                elif m[0] == "del" and len(model) > 1:
+                    t = sorted(model)[m[1] % len(model)]
+                    del model[t]
+                    op.terms.pop(t, None)       # (a term cancelled by += is already removed by openfermion)
+                labs.add("mod=" + m[0])
+            terms = ref_terms(model)
+            psi = psis[step["alt"]]
+            circ = S.build_circuit({"gates": case["alt_gates"] if step["alt"] else case["gates"], "nq": n})
+            e = H.term_expectations(terms, psi, n)
+            want = H.expectation(terms, e)
+            tol = tol_of(terms, model) * 4
+            iv = lambda: None if init is None else init.copy()
+            what = f"step {k} (same backend object, operator modified in place {k} times)"
+            if step["what"] == "exp":
+                near(be.get_expectation_value(op, circ, initial_statevector=iv()), want, tol, "history:cirq-expectation", what + ": cirq get_expectation_value")
+                near(gb.get_expectation_value(op, circ, initial_statevector=iv()), want, tol, "history:generic-expectation",
+                     what + ": user-defined backend get_expectation_value")
+            else:
+                near(be.get_variance(op, circ, initial_statevector=iv()), H.variance_formula(terms, e),
+                     tol * max(1.0, max([abs(c) for c in terms.values()] + [0.0])), "history:cirq-variance", what + ": cirq get_variance")
+            if set(op.terms) - set(model) or any(abs(complex(model[t]) - complex(op.terms.get(t, 0.0))) > 1e-7 for t in model):
+                raise Fail(f"{what}: evaluation changed the operator object (or the in-place update is not what the harness assumes): "
+                           f"{dict(op.terms)} vs {model}", sig="history:operator-modified")
+            if last is not None and abs(complex(want) - last) > 1e-6:
+                changed = True
+            last = complex(want)
+            if step["alt"]:
+                labs.add("circuit-switched")
+            labs.add("eval=" + step["what"])
+        return changed and int(np.sum(np.abs(psis[False]) > 1e-6)) >= 2, labs | {f"steps={len(case['steps'])}"}
+
+    ctx.search("history", cases(), body)
 
 
 # ------------------------------------------------------------------------------------------------ operators wider than the circuit
